@@ -259,6 +259,18 @@ def bounded(tier, seed):
                                         return '%s values differ beyond 7 significant digits: %r vs %r' % (k, np.ma.getdata(b[:])[~ma].tolist(), np.ma.getdata(a[:])[~ma].tolist())
                                 if not sig7(g.variables['Start_UTC'][:], f.variables['Start_UTC'][:]):
                                     return 'independent variable differs'
+                                if g.variables['Start_UTC'].units != f.variables['Start_UTC'].units:
+                                    return 'unit of the independent variable %r vs %r' % (g.variables['Start_UTC'].units, f.variables['Start_UTC'].units)
+                                # re-open by auto-detection (no format named), also under a name without suffix
+                                for ap in (path, path[:-4] + '_nosuffix'):
+                                    if ap != path:
+                                        shutil.copy(path, ap)
+                                    try:
+                                        a_ = pncopen(ap)
+                                    except Exception as e_:
+                                        return 'auto-detection of the written file fails: %s %s' % (type(e_).__name__, str(e_)[:80])
+                                    if type(a_).__name__ != 'ffi1001' or list(a_.variables) != ['Start_UTC'] + names:
+                                        return 'auto-detection opens the written file as %s with variables %r' % (type(a_).__name__, list(a_.variables)[:4])
                                 # second cycle changes nothing
                                 path2 = path + '.2'
                                 ncf2ffi1001(g, path2).close()
